@@ -332,6 +332,10 @@ theorem step_owner {s s' : S} {e : Ev} (h : step s e = some s') : OwnerStep s s'
           simp only [Option.some.injEq] at h; subst h
           refine .done op rfl (by intro op' h; exact h.symm) (by intro pk he; cases he) hg.1 rfl rfl ?_
           intro q; exact owner_keep hp (by simp [owner, hs]) q
+  | quiescent =>
+    simp only [step] at h; split at h
+    · simp only [Option.some.injEq] at h; subst h; exact .sameOf rfl rfl (fun _ => rfl) (fun _ h => h) (by intro pk he; cases he)
+    · simp at h
 
 /-- identity bookkeeping: completions, identifier ↔ operation, related to the history -/
 structure IdInv (hist : List Ev) (s : S) : Prop where
